@@ -514,33 +514,50 @@ Record nstate := mkNS {
   ns_events : Z;            (* number of events the node would send to an empty requester *)
   ns_blocks : list Z;       (* delivered blocks (ordinals of their bodies) *)
   ns_app : Z;               (* application state: ordinal of the last snapshot restored / block applied *)
-  ns_pool : list pentry     (* Hashgraph.PendingSignatures *)
+  ns_pool : list pentry;    (* Hashgraph.PendingSignatures *)
+  ns_locked : bool          (* Node.coreLock is held by nobody who will release it: every handler that needs it blocks *)
 }.
 
 Inductive cmd :=
-| CSync (limit : Z)                                         (* SyncRequest with an empty Known map *)
+| CSync (limit : Z) (diff_err : bool)
+    (* SyncRequest; diff_err = data: core.eventDiff(Known) fails (an index below -1 for a known participant,
+       or events already rolled out of the cache); otherwise the Known map is empty *)
 | CEager (e : wevent) (new_sigs : list pentry)              (* the event's block signatures enter the pool *)
 | CJoin (t : itx) (present : bool)
 | CFastForwardReq
 | RFastForward (f : ffresp) (snapshot : Z) (new_blocks : list Z).   (* response to the node's own request *)
 
 Definition set_pool (st : nstate) (p : list pentry) : nstate :=
-  mkNS (ns_state st) (ns_conf_limit st) (ns_events st) (ns_blocks st) (ns_app st) p.
+  mkNS (ns_state st) (ns_conf_limit st) (ns_events st) (ns_blocks st) (ns_app st) p (ns_locked st).
 Definition set_app (st : nstate) (a : Z) : nstate :=
-  mkNS (ns_state st) (ns_conf_limit st) (ns_events st) (ns_blocks st) a (ns_pool st).
+  mkNS (ns_state st) (ns_conf_limit st) (ns_events st) (ns_blocks st) a (ns_pool st) (ns_locked st).
 Definition set_blocks (st : nstate) (b : list Z) : nstate :=
-  mkNS (ns_state st) (ns_conf_limit st) (ns_events st) b (ns_app st) (ns_pool st).
+  mkNS (ns_state st) (ns_conf_limit st) (ns_events st) b (ns_app st) (ns_pool st) (ns_locked st).
+(* what a handler that returned without n.coreLock.Unlock() would leave behind (no modelled path does) *)
+Definition leak_lock (st : nstate) : nstate :=
+  mkNS (ns_state st) (ns_conf_limit st) (ns_events st) (ns_blocks st) (ns_app st) (ns_pool st) true.
 
+(* Every handler below takes n.coreLock after the state gate and releases it on every path,
+   error paths included (processSyncRequest: Lock; eventDiff; Unlock - then the error is answered). *)
 Definition handle (fx : fixes) (st : nstate) (c : cmd) : outcome unit * nstate :=
   match c with
-  | CSync limit =>
-    (bind (sync_request fx (ns_state st) limit (ns_conf_limit st) (ns_events st)) (fun _ => Ok tt), st)
+  | CSync limit diff_err =>
+    if negb (gate (ns_state st) true) then (Err, st)
+    else if ns_locked st then (Hang, st)
+    else
+      (bind (sync_request fx (ns_state st) limit (ns_conf_limit st) (if diff_err then -1 else ns_events st))
+            (fun _ => Ok tt), st)
   | CJoin t present =>
-    (bind (join_request fx (ns_state st) t present) (fun _ => Ok tt), st)
+    if negb (gate (ns_state st) false) then (Err, st)
+    else if ns_locked st then (Hang, st)
+    else (bind (join_request fx (ns_state st) t present) (fun _ => Ok tt), st)
   | CFastForwardReq =>
-    (if gate (ns_state st) false then Ok tt else Err, st)
+    if negb (gate (ns_state st) false) then (Err, st)
+    else if ns_locked st then (Hang, st)
+    else (Ok tt, st)
   | CEager e sigs =>
     if negb (gate (ns_state st) false) then (Err, st)
+    else if ns_locked st then (Hang, st)
     else if negb (we_read_ok e) then (Err, st)
     else match event_verify fx (we_itxs e) (we_bsigs e) (we_creator e) (we_sig e) (we_sigok e) with
          | Panic => (Panic, st)
@@ -551,10 +568,11 @@ Definition handle (fx : fixes) (st : nstate) (c : cmd) : outcome unit * nstate :
            else
              (* the event is in the hashgraph, its block signatures are pending *)
              let (o, rest) := process_sigpool fx (ns_pool st ++ sigs) in
-             (o, mkNS (ns_state st) (ns_conf_limit st) (ns_events st + 1) (ns_blocks st) (ns_app st) rest)
+             (o, mkNS (ns_state st) (ns_conf_limit st) (ns_events st + 1) (ns_blocks st) (ns_app st) rest (ns_locked st))
          end
   | RFastForward f snap blocks =>
     if negb (ns_state st =? 1) then (Err, st)       (* only a node in CatchingUp asks *)
+    else if ns_locked st then (Hang, st)
     else
       let st1 := if fx_restore fx then st else set_app st snap in   (* proxy.Restore before the checks *)
       match ff_check fx f with
